@@ -120,6 +120,19 @@ theorem setApp_cases' {c c0 : Cell} {a a' x : App} {y : Nat} (happs : c0.apps = 
   have ha0 : c0.app? y = some a := by unfold Cell.app?; rw [happs]; exact ha
   exact setApp_cases ha0 hx
 
+/-- Looking up the key of the record just written finds that record. -/
+theorem setApp_self' {c c0 : Cell} {a a' x : App} {y : Nat} (happs : c0.apps = c.apps) (ha : c.app? y = some a)
+    (hid : x.id = y) (hx : (c0.setApp x).app? y = some a') : a' = x := by
+  have ha0 : c0.app? y = some a := by unfold Cell.app?; rw [happs]; exact ha
+  rw [app?_setApp, ha0] at hx
+  simp only [Option.map_some, Option.some.injEq] at hx
+  have : a.id = x.id := by
+    have h1 : a.id = y := by
+      unfold Cell.app? at ha; have := List.find?_some ha; simpa using this
+    rw [h1, hid]
+  rw [if_pos this] at hx
+  exact hx.symm
+
 theorem srv?_setSrv (c : Cell) (s' : Srv) (k : Nat) :
     (c.setSrv s').srv? k = (c.srv? k).map (fun y => if y.id = s'.id then s' else y) := by
   unfold Cell.srv? Cell.setSrv
